@@ -344,3 +344,535 @@ Proof.
 Qed.
 
 End Invariant.
+
+(* ---------- consequences for a run in which every thread has finished ---------- *)
+
+Definition cc_all_done (s : cc_state) (k : nat) : Prop :=
+  forall i, (i < k)%nat -> exists o, cc_pcs s i = CcDone o.
+
+Section Final.
+Variable g : cc_cfg.
+Variable c : cfg.
+Variable jobs : nat -> Z * cres.
+Variable s0 : st.
+Variable k : nat.
+Hypothesis Hlf : cc_lock_first g = true.
+Variable s : cc_state.
+Hypothesis I : cc_inv g c jobs s0 k s.
+Hypothesis Hdone : cc_all_done s k.
+
+Lemma cc_log_lt i : In i (map fst (cc_log s)) -> (i < k)%nat.
+Proof.
+  intros Hin. destruct (Nat.lt_ge_cases i k) as [H|H]; [exact H|].
+  pose proof (inv_t _ _ _ _ _ _ I i) as T. rewrite (inv_idle _ _ _ _ _ _ I i H) in T. simpl in T. contradiction.
+Qed.
+
+Lemma cc_done_in_log i o : cc_pcs s i = CcDone o -> In i (map fst (cc_log s)).
+Proof.
+  intros Hp. pose proof (inv_t _ _ _ _ _ _ I i) as T. rewrite Hp in T. simpl in T.
+  destruct o as [|e].
+  - apply in_map_iff. exists (i, None). auto.
+  - destruct T as [inf [Hin _]]. apply in_map_iff. exists (i, Some inf). auto.
+Qed.
+
+Lemma cc_order_perm : Permutation (map fst (cc_log s)) (seq 0 k).
+Proof.
+  apply NoDup_Permutation; [apply (inv_nodup _ _ _ _ _ _ I)|apply seq_NoDup|].
+  intros i. rewrite in_seq. split.
+  - intros H. apply cc_log_lt in H. lia.
+  - intros [_ H]. destruct (Hdone i H) as [o Ho]. eapply cc_done_in_log; eauto.
+Qed.
+
+(* the log entry of a finished thread *)
+Lemma cc_log_entry i oi :
+  In (i, oi) (cc_log s) ->
+  exists o, cc_pcs s i = CcDone o /\
+    match oi with
+    | None => o = CcRejected
+    | Some inf => exists e, o = CcAccepted e /\
+        (if cc_ev_reread g then exists ty, e = cc_event c inf (snd (jobs i)) ty else e = i_event inf)
+    end.
+Proof.
+  intros Hin.
+  assert (Hi : (i < k)%nat) by (apply cc_log_lt; apply in_map_iff; exists (i, oi); auto).
+  destruct (Hdone i Hi) as [o Ho]. exists o. split; [exact Ho|].
+  pose proof (inv_t _ _ _ _ _ _ I i) as T. rewrite Ho in T. simpl in T.
+  pose proof (inv_nodup _ _ _ _ _ _ I) as Hnd.
+  destruct o as [|e].
+  - pose proof (cc_nodup_fst_fun _ _ _ _ Hnd Hin T) as ->. reflexivity.
+  - destruct T as [inf [Hin2 He]].
+    pose proof (cc_nodup_fst_fun _ _ _ _ Hnd Hin Hin2) as ->. exists e. auto.
+Qed.
+
+End Final.
+
+(* infos of the accepted-only serial reference are infos of step_accept *)
+Lemma cc_serial_acc_from c jobs s l i inf :
+  In (i, inf) (snd (cc_serial_acc c jobs s l)) -> exists sp, inf = snd (step_accept c sp (snd (jobs i))).
+Proof.
+  revert s. induction l as [|j l IH]; intros s; cbn [cc_serial_acc]; [intros []|].
+  destruct (step_accept c s (snd (jobs j))) as [s1 o1] eqn:E.
+  specialize (IH s1). destruct (cc_serial_acc c jobs s1 l) as [sf infs]. cbn [snd] in *.
+  intros [H|H]; [|auto]. inversion H; subst. exists s. rewrite E. reflexivity.
+Qed.
+
+Lemma cc_event_of_step c sp r : exists ty, i_event (snd (step_accept c sp r)) = cc_event c (snd (step_accept c sp r)) r ty.
+Proof. eexists. symmetry. apply cc_event_own. Qed.
+
+(* A. lock first, last_check_result stored in the same critical section, event from the computed type:
+      every interleaving is equivalent to the serial execution in the order of the lock acquisitions *)
+Theorem cc_serialisable g c jobs s0 k sched :
+  cc_lock_first g = true -> cc_cr_split g = false -> cc_ev_reread g = false ->
+  let s := cc_run g c jobs (cc_init s0 k) sched in
+  cc_all_done s k ->
+  exists order,
+    order = map fst (cc_log s) /\
+    Permutation order (seq 0 k) /\
+    cc_st s = run c s0 (map jobs order) /\
+    forall i o, cc_pcs s i = CcDone o -> In (i, o) (snd (cc_serial c jobs s0 order)).
+Proof.
+  intros Hlf Hsp Hrr s Hdone.
+  assert (I : cc_inv g c jobs s0 k s) by (apply cc_inv_run; [exact Hlf|apply cc_inv_init]).
+  exists (map fst (cc_log s)). split; [reflexivity|]. split; [eapply cc_order_perm; eauto|].
+  pose proof (inv_A _ _ _ _ _ _ I Hsp) as HA.
+  split.
+  - rewrite <- cc_serial_run, HA. reflexivity.
+  - intros i o Ho. rewrite HA. cbn [snd].
+    pose proof (inv_t _ _ _ _ _ _ I i) as T. rewrite Ho in T. simpl in T. rewrite Hrr in T.
+    destruct o as [|e].
+    + apply in_map_iff. exists (i, None). auto.
+    + destruct T as [inf [Hin ->]]. apply in_map_iff. exists (i, Some inf). auto.
+Qed.
+
+(* B. lock first, whatever happens to last_check_result and to the event test: the state fields are those of the
+      ACCEPTED calls applied one after the other in the order of their critical sections, and every accepted call
+      raises the event of its step in that order - computed with the state type as it is when the event is raised *)
+Theorem cc_fields_serialisable g c jobs s0 k sched :
+  cc_lock_first g = true ->
+  let s := cc_run g c jobs (cc_init s0 k) sched in
+  cc_all_done s k ->
+  exists order sB,
+    order = map fst (cc_accs (cc_log s)) /\
+    NoDup order /\
+    (forall i, In i order <-> (i < k)%nat /\ exists e, cc_pcs s i = CcDone (CcAccepted e)) /\
+    fst (cc_serial_acc c jobs s0 order) = sB /\ cc_nf (cc_st s) = cc_nf sB /\
+    forall i e, cc_pcs s i = CcDone (CcAccepted e) ->
+      exists inf, In (i, inf) (snd (cc_serial_acc c jobs s0 order)) /\
+                  (cc_ev_reread g = false -> e = i_event inf) /\
+                  exists ty, e = cc_event c inf (snd (jobs i)) ty.
+Proof.
+  intros Hlf s Hdone.
+  assert (I : cc_inv g c jobs s0 k s) by (apply cc_inv_run; [exact Hlf|apply cc_inv_init]).
+  destruct (inv_B _ _ _ _ _ _ I) as [sB [HB1 HB2]].
+  exists (map fst (cc_accs (cc_log s))), sB.
+  split; [reflexivity|]. split; [apply cc_accs_nodup, (inv_nodup _ _ _ _ _ _ I)|].
+  split; [|split; [rewrite HB1; reflexivity|split; [exact HB2|]]].
+  - intros i. split.
+    + intros Hin. apply in_map_iff in Hin. destruct Hin as [[j inf] [Hj Hin]]. simpl in Hj; subst j.
+      apply cc_accs_in in Hin.
+      split; [eapply cc_log_lt; eauto; apply in_map_iff; exists (i, Some inf); auto|].
+      destruct (cc_log_entry _ _ _ _ _ _ I Hdone _ _ Hin) as [o [Ho [e [-> _]]]]. eauto.
+    + intros [Hi [e He]]. pose proof (inv_t _ _ _ _ _ _ I i) as T. rewrite He in T. simpl in T.
+      destruct T as [inf [Hin _]]. apply in_map_iff. exists (i, inf). split; [reflexivity|apply cc_accs_in; exact Hin].
+  - intros i e He. rewrite HB1. cbn [snd].
+    pose proof (inv_t _ _ _ _ _ _ I i) as T. rewrite He in T. simpl in T.
+    destruct T as [inf [Hin Hev]]. exists inf. split; [apply cc_accs_in; exact Hin|].
+    assert (Hfrom : exists sp, inf = snd (step_accept c sp (snd (jobs i)))).
+    { apply (cc_serial_acc_from c jobs s0 (map fst (cc_accs (cc_log s)))). rewrite HB1. apply cc_accs_in. exact Hin. }
+    destruct Hfrom as [sp ->].
+    destruct (cc_ev_reread g).
+    + split; [discriminate|exact Hev].
+    + split; [auto|]. rewrite Hev. apply cc_event_of_step.
+Qed.
+
+(* ---------- the tree as it is (second critical section for last_check_result): results that are not
+   outdated with respect to each other nor to the stored one ---------- *)
+
+Section SameStamp.
+Variable g : cc_cfg.
+Variable c : cfg.
+Variable jobs : nat -> Z * cres.
+Variable s0 : st.
+Variable k : nat.
+Variable t : Z.
+Hypothesis Hlf : cc_lock_first g = true.
+Hypothesis Hstamp : forall i, r_start (snd (jobs i)) = t.
+Hypothesis Hs0 : s_has_cr s0 = true -> s_cr_start s0 <= t.
+
+Definition cc_crp (x : st) : bool * Z := (s_has_cr x, s_cr_start x).
+Definition cc_cr_ok (x : st) : Prop := cc_crp x = cc_crp s0 \/ cc_crp x = (true, t).
+
+Definition cc_past (p : cc_pc) : bool :=
+  match p with
+  | CcRel2 _ | CcPost _ | CcDone (CcAccepted _) => true
+  | CcRel1 _ => negb (cc_cr_split g)
+  | _ => false
+  end.
+
+Record cc_inv2 (s : cc_state) : Prop := {
+  inv2_cr : cc_cr_ok (cc_st s);
+  inv2_snap : forall i, match cc_pcs s i with CcHave snap => cc_cr_ok snap | _ => True end;
+  inv2_past : forall i, cc_past (cc_pcs s i) = true -> cc_crp (cc_st s) = (true, t);
+  inv2_norej : forall i, cc_pcs s i <> CcDone CcRejected
+}.
+
+Lemma cc_no_stale now x r : cc_cr_ok x -> r_start r = t -> rejected now x r = false.
+Proof.
+  unfold cc_cr_ok, cc_crp, rejected. intros [H|H] Hr; inversion H as [[H1 H2]]; rewrite Hr.
+  - destruct (s_has_cr s0) eqn:E; rewrite H1; [|reflexivity].
+    rewrite H2. specialize (Hs0 eq_refl). destruct (Z.ltb_spec t (s_cr_start s0)); [lia|].
+    rewrite andb_false_r. reflexivity.
+  - rewrite H1, H2, Z.ltb_irrefl, andb_false_r. reflexivity.
+Qed.
+
+Lemma cc_inv2_move s i p' st' l' lg' :
+  cc_inv2 s ->
+  cc_cr_ok st' ->
+  (cc_crp (cc_st s) = (true, t) -> cc_crp st' = (true, t)) ->
+  match p' with CcHave snap => cc_cr_ok snap | _ => True end ->
+  (cc_past p' = true -> cc_crp st' = (true, t)) ->
+  p' <> CcDone CcRejected ->
+  cc_inv2 {| cc_st := st'; cc_lock := l'; cc_pcs := cc_upd (cc_pcs s) i p'; cc_log := lg' |}.
+Proof.
+  intros J H1 H2 H3 H4 H5. constructor; simpl.
+  - exact H1.
+  - intros j. unfold cc_upd. destruct (Nat.eqb_spec j i); [exact H3|apply (inv2_snap _ J)].
+  - intros j. unfold cc_upd. destruct (Nat.eqb_spec j i); [exact H4|].
+    intros Hp. apply H2. apply (inv2_past _ J j Hp).
+  - intros j. unfold cc_upd. destruct (Nat.eqb_spec j i); [exact H5|apply (inv2_norej _ J)].
+Qed.
+
+Lemma cc_inv2_init : cc_inv2 (cc_init s0 k).
+Proof.
+  constructor; simpl.
+  - left; reflexivity.
+  - intros i. destruct (Nat.ltb i k); exact Logic.I.
+  - intros i. destruct (Nat.ltb i k); discriminate.
+  - intros i. destruct (Nat.ltb i k); discriminate.
+Qed.
+
+Lemma cc_inv2_step s i : cc_inv2 s -> cc_inv2 (cc_step g c jobs s i).
+Proof.
+  intros J. pose proof (inv2_snap _ J i) as Si. pose proof (inv2_past _ J i) as Pi.
+  pose proof (inv2_cr _ J) as Hc.
+  unfold cc_step.
+  destruct (cc_pcs s i) as [| | |snap|snap|snap|inf|inf|inf|inf|inf|o] eqn:Hpc; cbn [cc_past] in *.
+  - exact J.
+  - rewrite Hlf. destruct (cc_free (cc_lock s)); [|exact J].
+    apply cc_inv2_move; auto; try discriminate.
+  - apply cc_inv2_move; auto; try discriminate.
+  - rewrite (cc_no_stale _ _ _ Si (Hstamp i)), Hlf.
+    apply cc_inv2_move; auto; try discriminate.
+  - destruct (cc_free (cc_lock s)); [|exact J].
+    apply cc_inv2_move; auto; try discriminate.
+  - destruct (step_accept c (cc_mix snap (cc_st s)) (snd (jobs i))) as [s' inf] eqn:E.
+    pose proof (cc_step_accept_cr c (cc_mix snap (cc_st s)) (snd (jobs i))) as [C1 C2].
+    rewrite E in C1, C2. cbn [fst] in C1, C2. rewrite (Hstamp i) in C2.
+    destruct (cc_cr_split g) eqn:Hs.
+    + apply cc_inv2_move; auto; try discriminate.
+      cbn [cc_past]. rewrite Hs. discriminate.
+    + assert (Hx : cc_crp s' = (true, t)) by (unfold cc_crp; congruence).
+      apply cc_inv2_move; auto; try discriminate.
+      right; exact Hx.
+  - destruct (cc_cr_split g) eqn:Hs.
+    + apply cc_inv2_move; auto; try discriminate.
+    + apply cc_inv2_move; auto; try discriminate.
+  - destruct (cc_free (cc_lock s)); [|exact J].
+    apply cc_inv2_move; auto; try discriminate.
+  - assert (Hx : cc_crp (cc_set_cr (cc_st s) (snd (jobs i))) = (true, t)).
+    { unfold cc_crp, cc_set_cr; simpl. rewrite (Hstamp i). reflexivity. }
+    apply cc_inv2_move; auto; try discriminate.
+    right; exact Hx.
+  - apply cc_inv2_move; auto; try discriminate.
+  - apply cc_inv2_move; auto; try discriminate.
+  - exact J.
+Qed.
+
+Lemma cc_inv2_run sched : forall s, cc_inv2 s -> cc_inv2 (cc_run g c jobs s sched).
+Proof.
+  induction sched as [|i sched IH]; intros s J; [exact J|].
+  unfold cc_run in *. cbn [fold_left]. apply IH. apply cc_inv2_step. exact J.
+Qed.
+
+(* in a serial run of such results none is rejected *)
+Lemma cc_serial_no_stale l : forall x,
+  (s_has_cr x = true -> s_cr_start x <= t) ->
+  cc_serial c jobs x l =
+  (fst (cc_serial_acc c jobs x l),
+   map (fun e => (fst e, CcAccepted (i_event (snd e)))) (snd (cc_serial_acc c jobs x l))).
+Proof.
+  induction l as [|j l IH]; intros x Hx; cbn [cc_serial cc_serial_acc]; [reflexivity|].
+  unfold step.
+  assert (Hr : rejected (fst (jobs j)) x (snd (jobs j)) = false).
+  { unfold rejected. rewrite (Hstamp j). destruct (s_has_cr x); [|reflexivity].
+    specialize (Hx eq_refl). destruct (Z.ltb_spec t (s_cr_start x)); [lia|]. rewrite andb_false_r. reflexivity. }
+  rewrite Hr.
+  pose proof (cc_step_accept_cr c x (snd (jobs j))) as [C1 C2].
+  destruct (step_accept c x (snd (jobs j))) as [s1 inf]. cbn [fst] in C1, C2.
+  rewrite IH by (intros _; rewrite C2, (Hstamp j); lia).
+  destruct (cc_serial_acc c jobs s1 l) as [sf infs]. reflexivity.
+Qed.
+
+Lemma cc_serial_acc_last_cr l : forall x, l <> [] -> cc_crp (fst (cc_serial_acc c jobs x l)) = (true, t).
+Proof.
+  induction l as [|j l IH] using rev_ind; intros x Hne; [congruence|].
+  rewrite cc_serial_acc_snoc. destruct (cc_serial_acc c jobs x l) as [sf infs].
+  pose proof (cc_step_accept_cr c sf (snd (jobs j))) as [C1 C2].
+  destruct (step_accept c sf (snd (jobs j))) as [s1 inf]. cbn [fst] in *.
+  unfold cc_crp. rewrite C1, C2, (Hstamp j). reflexivity.
+Qed.
+
+Lemma cc_accs_all_some lg : (forall e, In e lg -> snd e <> None) -> map fst (cc_accs lg) = map fst lg.
+Proof.
+  induction lg as [|[j [inf|]] lg IH]; intros H; simpl; [reflexivity| |].
+  - f_equal. apply IH. intros e He. apply H. right; exact He.
+  - exfalso. apply (H (j, None)); [left; reflexivity|reflexivity].
+Qed.
+
+(* B'. the tree as it is: lock first, second critical section, second load of the state type.  For results with one
+       execution start that is not older than the stored one (every order of them is a non-decreasing history), every
+       interleaving ends in the state of CkState.run over the order of the lock acquisitions; all calls are accepted;
+       the event of a call is the event of its step - computed with the state type at the moment it is raised when
+       the type is loaded again *)
+Theorem cc_serialisable_same_stamp sched :
+  (0 < k)%nat ->
+  let s := cc_run g c jobs (cc_init s0 k) sched in
+  cc_all_done s k ->
+  exists order,
+    order = map fst (cc_log s) /\
+    Permutation order (seq 0 k) /\
+    cc_st s = run c s0 (map jobs order) /\
+    (forall i, (i < k)%nat -> exists e inf,
+        cc_pcs s i = CcDone (CcAccepted e) /\ In (i, inf) (snd (cc_serial_acc c jobs s0 order)) /\
+        In (i, CcAccepted (i_event inf)) (snd (cc_serial c jobs s0 order)) /\
+        (cc_ev_reread g = false -> e = i_event inf) /\
+        exists ty, e = cc_event c inf (snd (jobs i)) ty).
+Proof.
+  intros Hk s Hdone.
+  assert (I : cc_inv g c jobs s0 k s) by (apply cc_inv_run; [exact Hlf|apply cc_inv_init]).
+  assert (J : cc_inv2 s) by (apply cc_inv2_run; apply cc_inv2_init).
+  assert (Hacc : forall i, (i < k)%nat -> exists e, cc_pcs s i = CcDone (CcAccepted e)).
+  { intros i Hi. destruct (Hdone i Hi) as [[|e] Ho]; [|eauto]. exfalso. eapply (inv2_norej _ J); eauto. }
+  assert (Hsome : forall e, In e (cc_log s) -> snd e <> None).
+  { intros [i [inf|]] Hin; simpl; [discriminate|]. exfalso.
+    destruct (cc_log_entry _ _ _ _ _ _ I Hdone _ _ Hin) as [o [Ho ->]]. eapply (inv2_norej _ J); eauto. }
+  pose proof (cc_accs_all_some _ Hsome) as Hids.
+  destruct (inv_B _ _ _ _ _ _ I) as [sB [HB1 HB2]]. rewrite Hids in HB1.
+  pose proof (cc_order_perm _ _ _ _ _ _ I Hdone) as Hperm.
+  exists (map fst (cc_log s)). split; [reflexivity|]. split; [exact Hperm|].
+  assert (Hne : map fst (cc_log s) <> []).
+  { intros E. rewrite E in Hperm. apply Permutation_length in Hperm. rewrite seq_length in Hperm. simpl in Hperm. lia. }
+  split.
+  - rewrite <- cc_serial_run, (cc_serial_no_stale _ _ Hs0), HB1. cbn [fst].
+    apply cc_nf_eq; [exact HB2| |].
+    + destruct (Hacc 0%nat Hk) as [e He].
+      pose proof (inv2_past _ J 0%nat) as P. rewrite He in P. specialize (P eq_refl).
+      pose proof (cc_serial_acc_last_cr _ s0 Hne) as Q. rewrite HB1 in Q. cbn [fst] in Q.
+      unfold cc_crp in *. congruence.
+    + destruct (Hacc 0%nat Hk) as [e He].
+      pose proof (inv2_past _ J 0%nat) as P. rewrite He in P. specialize (P eq_refl).
+      pose proof (cc_serial_acc_last_cr _ s0 Hne) as Q. rewrite HB1 in Q. cbn [fst] in Q.
+      unfold cc_crp in *. congruence.
+  - intros i Hi. destruct (Hacc i Hi) as [e He].
+    pose proof (inv_t _ _ _ _ _ _ I i) as T. rewrite He in T. simpl in T.
+    destruct T as [inf [Hin Hev]]. exists e, inf. split; [exact He|].
+    rewrite (cc_serial_no_stale _ _ Hs0), HB1. cbn [snd].
+    split; [apply cc_accs_in; exact Hin|].
+    split; [apply in_map_iff; exists (i, inf); split; [reflexivity|apply cc_accs_in; exact Hin]|].
+    assert (Hfrom : exists sp, inf = snd (step_accept c sp (snd (jobs i)))).
+    { apply (cc_serial_acc_from c jobs s0 (map fst (cc_log s))). rewrite HB1. apply cc_accs_in. exact Hin. }
+    destruct Hfrom as [sp ->].
+    destruct (cc_ev_reread g).
+    + split; [discriminate|exact Hev].
+    + split; [auto|]. rewrite Hev. apply cc_event_of_step.
+Qed.
+
+End SameStamp.
+
+(* ---------- the executable judgements accept what the model can do ---------- *)
+
+Lemma cc_ins_in x l1 l2 : In (l1 ++ x :: l2) (cc_ins x (l1 ++ l2)).
+Proof.
+  induction l1 as [|y l1 IH]; simpl.
+  - destruct l2; simpl; auto.
+  - right. apply in_map. exact IH.
+Qed.
+
+Lemma cc_perms_complete l : forall l', Permutation l l' -> In l' (cc_perms l).
+Proof.
+  induction l as [|x t IH]; intros l' H; simpl.
+  - apply Permutation_nil in H. subst. left; reflexivity.
+  - assert (Hx : In x l') by (eapply Permutation_in; [exact H|left; reflexivity]).
+    apply in_split in Hx. destruct Hx as [l1 [l2 ->]].
+    apply Permutation_cons_app_inv in H.
+    apply in_flat_map. exists (l1 ++ l2). split; [apply IH; exact H|apply cc_ins_in].
+Qed.
+
+Definition cc_outs_of (s : cc_state) (k : nat) : list cc_out :=
+  map (fun i => match cc_pcs s i with CcDone o => o | _ => cc_out_default end) (seq 0 k).
+
+Lemma cc_nth_map_seq {A} (f : nat -> A) k i d : (i < k)%nat -> nth i (map f (seq 0 k)) d = f i.
+Proof.
+  intros Hi. rewrite (nth_indep _ d (f 0%nat)) by (rewrite map_length, seq_length; exact Hi).
+  rewrite map_nth, seq_nth by exact Hi. reflexivity.
+Qed.
+
+Lemma cc_outs_nth s k i o : (i < k)%nat -> cc_pcs s i = CcDone o -> nth i (cc_outs_of s k) cc_out_default = o.
+Proof.
+  intros Hi Ho. unfold cc_outs_of. rewrite cc_nth_map_seq by exact Hi. rewrite Ho. reflexivity.
+Qed.
+
+Lemma cc_event_eqb_refl e : cc_event_eqb e e = true.
+Proof. destruct e; reflexivity. Qed.
+Lemma cc_out_eqb_refl o : cc_out_eqb o o = true.
+Proof. destruct o; simpl; [reflexivity|apply cc_event_eqb_refl]. Qed.
+Lemma cc_proj_eqb_refl p : cc_proj_eqb p p = true.
+Proof. destruct p as [[[a b] d] e]. simpl. rewrite !Z.eqb_refl. reflexivity. Qed.
+Lemma cc_proj_nf c x : cc_proj c x = cc_proj c (cc_nf x).
+Proof. reflexivity. Qed.
+
+(* the strict judgement never fires on an interleaving of the one-critical-section shape *)
+Theorem cc_strict_accepts g c js s0 sched :
+  cc_lock_first g = true -> cc_cr_split g = false -> cc_ev_reread g = false ->
+  let k := length js in
+  let s := cc_run g c (cc_jobs_of js) (cc_init s0 k) sched in
+  cc_all_done s k ->
+  cc_strict_ok c s0 js (cc_proj c (cc_st s)) (cc_outs_of s k) = true.
+Proof.
+  intros Hlf Hsp Hrr k s Hdone.
+  destruct (cc_serialisable g c (cc_jobs_of js) s0 k sched Hlf Hsp Hrr Hdone) as [order [_ [Hperm [Hst Houts]]]].
+  fold s in Hst, Houts.
+  unfold cc_strict_ok. apply existsb_exists. exists order.
+  split; [apply cc_perms_complete; symmetry; exact Hperm|].
+  pose proof (cc_serial_run c (cc_jobs_of js) s0 order) as Hr.
+  pose proof (cc_serial_ids c (cc_jobs_of js) s0 order) as Hids.
+  destruct (cc_serial c (cc_jobs_of js) s0 order) as [sf ser]. cbn [fst snd] in *.
+  apply andb_true_intro. split.
+  - rewrite Hr, <- Hst. apply cc_proj_eqb_refl.
+  - unfold cc_outs_match. apply forallb_forall. intros [i o] Hin. cbn [fst snd].
+    assert (Hio : In i order) by (rewrite <- Hids; apply in_map_iff; exists (i, o); auto).
+    assert (Hi : (i < k)%nat) by (apply (Permutation_in _ Hperm) in Hio; apply in_seq in Hio; lia).
+    destruct (Hdone i Hi) as [o' Ho'].
+    assert (Hnd : NoDup (map fst ser)).
+    { rewrite Hids. apply (Permutation_NoDup (l := seq 0 k)); [symmetry; exact Hperm|apply seq_NoDup]. }
+    rewrite (cc_nodup_fst_fun _ _ _ _ Hnd Hin (Houts i o' Ho')).
+    rewrite (cc_outs_nth s k i o' Hi Ho'). apply cc_out_eqb_refl.
+Qed.
+
+(* the relaxed judgement never fires on an interleaving of ANY shape that takes the lock first
+   (in particular not on the tree as it is) *)
+Theorem cc_relaxed_accepts g c js s0 sched :
+  cc_lock_first g = true ->
+  let k := length js in
+  let s := cc_run g c (cc_jobs_of js) (cc_init s0 k) sched in
+  cc_all_done s k ->
+  cc_relaxed_ok c s0 js (cc_proj c (cc_st s)) (cc_outs_of s k) = true.
+Proof.
+  intros Hlf k s Hdone.
+  destruct (cc_fields_serialisable g c (cc_jobs_of js) s0 k sched Hlf Hdone)
+    as [order [sB [_ [Hnd [Hiff [HsB [Hnf Hev]]]]]]].
+  fold s in Hiff, Hnf, Hev.
+  unfold cc_relaxed_ok. fold k. apply existsb_exists. exists order.
+  split.
+  - apply cc_perms_complete. apply NoDup_Permutation; [apply NoDup_filter, seq_NoDup|exact Hnd|].
+    intros i. rewrite filter_In, in_seq, Hiff. split.
+    + intros [[_ Hi] Ha]. split; [exact Hi|]. destruct (Hdone i Hi) as [o Ho].
+      rewrite (cc_outs_nth s k i o Hi Ho) in Ha. destruct o; [discriminate|eauto].
+    + intros [Hi [e He]]. split; [lia|]. rewrite (cc_outs_nth s k i _ Hi He). reflexivity.
+  - pose proof (cc_serial_acc_ids c (cc_jobs_of js) s0 order) as Hids.
+    destruct (cc_serial_acc c (cc_jobs_of js) s0 order) as [sf infs]. cbn [fst snd] in *. subst sf.
+    apply andb_true_intro. split.
+    + rewrite (cc_proj_nf c sB), <- Hnf, <- cc_proj_nf. apply cc_proj_eqb_refl.
+    + apply forallb_forall. intros [i inf] Hin. cbn [fst snd].
+      assert (Hio : In i order) by (rewrite <- Hids; apply in_map_iff; exists (i, inf); auto).
+      apply Hiff in Hio. destruct Hio as [Hi [e He]].
+      rewrite (cc_outs_nth s k i _ Hi He).
+      destruct (Hev i e He) as [inf' [Hin' [_ [ty Hty]]]].
+      assert (Hnd' : NoDup (map fst infs)) by (rewrite Hids; exact Hnd).
+      rewrite (cc_nodup_fst_fun _ _ _ _ Hnd' Hin Hin'). subst e. simpl.
+      destruct ty; rewrite cc_event_eqb_refl; [reflexivity|apply orb_true_r].
+Qed.
+
+(* ---------- witnesses ---------- *)
+
+Definition cc_w_cfg : cfg := {| c_kind := KService; c_max := 3; c_volatile := false |}.
+Definition cc_w_res (x : sstate) (t : Z) : cres := {| r_state := x; r_start := t; r_end := t |}.
+(* hard OK, last result stamped 10 *)
+Definition cc_w_s0 : st := fst (step_accept cc_w_cfg pending (cc_w_res SOK 10)).
+
+(* 1. late lock (the seeded shape): two CRITICAL results, both snapshot hard OK before either writes *)
+Definition cc_g_late : cc_cfg := {| cc_lock_first := false; cc_cr_split := true; cc_ev_reread := true |}.
+Definition cc_w_jobs1 : list (Z * cres) := [(20, cc_w_res SCritical 20); (20, cc_w_res SCritical 20)].
+Definition cc_w_sched1 : list nat := ([0;0;0; 1;1;1] ++ repeat 0 7 ++ repeat 1 7)%nat.
+
+Lemma cc_perm2 order : Permutation order [0;1]%nat -> order = [0;1]%nat \/ order = [1;0]%nat.
+Proof.
+  intros H. symmetry in H. apply cc_perms_complete in H. simpl in H.
+  destruct H as [H|[H|[]]]; auto.
+Qed.
+
+Theorem cc_late_lock_refuted :
+  let s := cc_run cc_g_late cc_w_cfg (cc_jobs_of cc_w_jobs1) (cc_init cc_w_s0 2) cc_w_sched1 in
+  cc_all_done s 2 /\
+  cc_pcs s 0%nat = CcDone (CcAccepted EvSoft) /\ cc_pcs s 1%nat = CcDone (CcAccepted EvSoft) /\
+  s_type (cc_st s) = Soft /\ s_attempt (cc_st s) = 1 /\
+  (forall order, Permutation order [0;1]%nat ->
+     s_attempt (run cc_w_cfg cc_w_s0 (map (cc_jobs_of cc_w_jobs1) order)) = 2) /\
+  cc_strict_ok cc_w_cfg cc_w_s0 cc_w_jobs1 (cc_proj cc_w_cfg (cc_st s)) (cc_outs_of s 2) = false /\
+  cc_relaxed_ok cc_w_cfg cc_w_s0 cc_w_jobs1 (cc_proj cc_w_cfg (cc_st s)) (cc_outs_of s 2) = false.
+Proof.
+  cbv zeta. split.
+  - intros i Hi. destruct i as [|[|i]]; [eexists; vm_compute; reflexivity|eexists; vm_compute; reflexivity|lia].
+  - repeat split; try (vm_compute; reflexivity).
+    intros order H. destruct (cc_perm2 _ H) as [->| ->]; vm_compute; reflexivity.
+Qed.
+
+(* 2. second critical section for last_check_result (the tree as it is): thread 0 (CRITICAL stamped 30) has written
+      the state fields and released the lock; before it stores its result, thread 1 (WARNING stamped 20, newer than
+      the stored 10 but older than 30) runs completely; then thread 0 stores its result.  The object ends in WARNING,
+      attempt 2, with the CRITICAL result stored; no serial order ends in WARNING *)
+Definition cc_g_tree : cc_cfg := {| cc_lock_first := true; cc_cr_split := true; cc_ev_reread := true |}.
+Definition cc_g_split_only : cc_cfg := {| cc_lock_first := true; cc_cr_split := true; cc_ev_reread := false |}.
+Definition cc_w_jobs2 : list (Z * cres) := [(30, cc_w_res SCritical 30); (30, cc_w_res SWarning 20)].
+Definition cc_w_sched2 : list nat := (repeat 0 5 ++ repeat 1 10 ++ repeat 0 5)%nat.
+
+Theorem cc_cr_gap_refuted :
+  let s := cc_run cc_g_split_only cc_w_cfg (cc_jobs_of cc_w_jobs2) (cc_init cc_w_s0 2) cc_w_sched2 in
+  cc_all_done s 2 /\
+  cc_pcs s 0%nat = CcDone (CcAccepted EvSoft) /\ cc_pcs s 1%nat = CcDone (CcAccepted EvSoft) /\
+  s_raw (cc_st s) = SWarning /\ s_attempt (cc_st s) = 2 /\ s_cr_start (cc_st s) = 30 /\
+  (forall order, Permutation order [0;1]%nat ->
+     s_raw (run cc_w_cfg cc_w_s0 (map (cc_jobs_of cc_w_jobs2) order)) = SCritical) /\
+  cc_strict_ok cc_w_cfg cc_w_s0 cc_w_jobs2 (cc_proj cc_w_cfg (cc_st s)) (cc_outs_of s 2) = false /\
+  cc_relaxed_ok cc_w_cfg cc_w_s0 cc_w_jobs2 (cc_proj cc_w_cfg (cc_st s)) (cc_outs_of s 2) = true.
+Proof.
+  cbv zeta. split.
+  - intros i Hi. destruct i as [|[|i]]; [eexists; vm_compute; reflexivity|eexists; vm_compute; reflexivity|lia].
+  - repeat split; try (vm_compute; reflexivity).
+    intros order H. destruct (cc_perm2 _ H) as [->| ->]; vm_compute; reflexivity.
+Qed.
+
+(* 3. second load of the state type for the soft-event test (the tree as it is): thread 0 (OK on a hard-OK object: no
+      event) has left its critical section; thread 1 (CRITICAL) runs completely and leaves the object SOFT; thread 0 then
+      raises a soft state-change event for an OK -> OK result.  In no serial order does thread 0 raise a soft event *)
+Definition cc_g_reread_only : cc_cfg := {| cc_lock_first := true; cc_cr_split := false; cc_ev_reread := true |}.
+Definition cc_w_jobs3 : list (Z * cres) := [(20, cc_w_res SOK 20); (20, cc_w_res SCritical 20)].
+Definition cc_w_sched3 : list nat := (repeat 0 5 ++ repeat 1 7 ++ repeat 0 2)%nat.
+
+Theorem cc_event_reread_refuted :
+  let s := cc_run cc_g_reread_only cc_w_cfg (cc_jobs_of cc_w_jobs3) (cc_init cc_w_s0 2) cc_w_sched3 in
+  cc_all_done s 2 /\
+  cc_pcs s 0%nat = CcDone (CcAccepted EvSoft) /\ cc_pcs s 1%nat = CcDone (CcAccepted EvSoft) /\
+  (forall order, Permutation order [0;1]%nat ->
+     ~ In (0%nat, CcAccepted EvSoft) (snd (cc_serial cc_w_cfg (cc_jobs_of cc_w_jobs3) cc_w_s0 order))) /\
+  cc_strict_ok cc_w_cfg cc_w_s0 cc_w_jobs3 (cc_proj cc_w_cfg (cc_st s)) (cc_outs_of s 2) = false /\
+  cc_relaxed_ok cc_w_cfg cc_w_s0 cc_w_jobs3 (cc_proj cc_w_cfg (cc_st s)) (cc_outs_of s 2) = true.
+Proof.
+  cbv zeta. split.
+  - intros i Hi. destruct i as [|[|i]]; [eexists; vm_compute; reflexivity|eexists; vm_compute; reflexivity|lia].
+  - repeat split; try (vm_compute; reflexivity).
+    intros order H. destruct (cc_perm2 _ H) as [->| ->]; vm_compute; intros [E|[E|[]]]; discriminate.
+Qed.
+
+(* the same three schedules are harmless once the lock is taken first / the result is stored in the same critical
+   section / the computed type is used: nothing to prove separately, cc_serialisable covers every schedule. *)
